@@ -17,6 +17,7 @@ comparison operators) and the evaluation mechanics.
 """
 import contextvars
 import operator
+import itertools
 import typing
 from abc import abstractmethod, ABC
 from dataclasses import dataclass, field
@@ -1407,7 +1408,7 @@ class BinaryOperator(SymbolicExpression, ABC):
             -> Iterable[Dict[int, HashedValue]]:
         cache = self._cache_ if cache is None else cache
         entered = False
-        for output, is_false in cache.retrieve(variables_sources):
+        for output, is_false in self._leave_out_repeated_outputs_(variables_sources, cache.retrieve(variables_sources)):
             entered = True
             self._is_false_ = is_false
             cache_match_count.values[self._node_.name] += 1
@@ -1418,6 +1419,37 @@ class BinaryOperator(SymbolicExpression, ABC):
             cache_match_count.values[self._node_.name] += 1
         cache_enter_count.values[self._node_.name] = cache.enter_count
         cache_search_count.values[self._node_.name] = cache.search_count
+
+    @staticmethod
+    def _leave_out_repeated_outputs_(variables_sources: Dict[int, HashedValue],
+                                     cached: Iterable[Tuple[Dict[int, HashedValue], bool]]) \
+            -> Iterable[Tuple[Dict[int, HashedValue], bool]]:
+        """
+        Several cache entries can stand for the same output: an entry stored while a variable was unbound matches a
+        lookup that binds the variable, and so does an entry stored under that value of the variable. An output is
+        left out when another one with the same truth value binds a subset of its variables to the same values (of
+        equal outputs one is kept), otherwise the same row would be produced more than once.
+
+        :param variables_sources: The looked-up bindings; every cached output extends them.
+        :param cached: The (output, is_false) pairs retrieved from the cache.
+        :return: The pairs that are not repeated by a more general one, in the order they were retrieved.
+        """
+        cached = list(cached)
+        if len(cached) < 2:
+            yield from cached
+            return
+        found = [[(k, v) for k, v in output.items() if k not in variables_sources] for output, _ in cached]
+        kept, kept_idx = set(), set()
+        for idx in sorted(range(len(cached)), key=lambda i: len(found[i])):
+            is_false = cached[idx][1]
+            if any((frozenset(part), is_false) in kept
+                   for n in range(len(found[idx]) + 1) for part in itertools.combinations(found[idx], n)):
+                continue
+            kept.add((frozenset(found[idx]), is_false))
+            kept_idx.add(idx)
+        for idx, pair in enumerate(cached):
+            if idx in kept_idx:
+                yield pair
 
     def yield_from_cache(self, variables_sources, cache: IndexedCache) -> Iterable[Tuple[Dict[int, HashedValue], bool]]:
         entered = False
